@@ -638,6 +638,9 @@ def run(chk, replay=None):
         tc.replay_job(chk, replay, "c16")
         return
     quick = chk.tier == "quick"
+    # the reader's end-of-script machine (spec/ReadInstrs.tla), replayed into llir::read_instrs in-process
+    from . import extra_readinstrs
+    extra_readinstrs.run(chk)
     runner = tc.Runner("c16")
     wd = lib.workdir("c16_gen")
     out = os.path.join(wd, "rows.ndjson")
